@@ -56,7 +56,7 @@ ASSUMPTIONS = [
     "PathInfo/ERO always carry a payload (to_json needs one); ERO.strict is a bool",
     "MaintenanceEntry: unknown keys are not injected (no tolerance documented); aware datetimes use whole-minute offsets",
 ]
-BUDGET = {"quick": 60000, "thorough": 3000000}
+BUDGET = {"quick": 60000, "thorough": 600000}
 MIN_LABEL_FRACTION = dict({f"kind:{k}": 0.015 for k in KINDS},
                           **{"falsy-field": 0.15, "list-field": 0.05, "boundary": 0.03, "extras": 0.1,
                              "nothing-set": 0.005, "update-kw": 0.05, "bad-kw": 0.1})
@@ -430,6 +430,17 @@ def _run_jsonfield(ctx):
         ok, enc2 = ctx.call("encode", dec.to_json)
         if ok:
             ctx.chk("reencode-identical", enc2 == enc, f"first={enc!r} second={enc2!r}")            # clause 2
+        # a decoded value is the caller's own: changing it (the library itself assigns to fields of decoded values)
+        # must not change what the same text decodes to afterwards
+        first = copy.deepcopy(dec.__dict__)
+        for k in list(dec.__dict__):
+            setattr(dec, k, None)
+        ok, dec_again = ctx.call("decode", lambda: cls.from_json(enc))
+        if ok:
+            ctx.chk("decode/depends-on-earlier-decoded-object", dec_again is not None and dec_again.__dict__ == first,
+                    f"second decode of {enc!r} after clearing the first result: "
+                    f"{None if dec_again is None else dec_again.__dict__}, first time {first}")
+        dec.__dict__.update(first)
 
     # --- clause 4: unknown keys
     if case["extras"]:
